@@ -1162,3 +1162,172 @@ func checkNarrowBounds(w *World, r *Report) {
 		r.ok("R05.12", "(package)", "no slice or index bound is computed in a fixed-width narrow type", "-", fmt.Sprintf("%d bounds inspected", n), false)
 	}
 }
+
+// checkLookaround — R05.13: a look-ahead or look-behind by a constant in a string or byte slice
+// (`s[i+1]`, `s[pos-1]`) is guarded.  For s[v+k] some test `v+k' < len(s)` with k' >= k (or an
+// equivalent spelling: `v < len(s)-k'`, `len(s) > v+k'`, `len(s)-v > k'`, a loop condition of
+// that form) holds on every path to the access; for s[v-k] a test `v >= k` (`v > k-1`, `v != 0`
+// resp. the false edge of `v == 0` for k = 1, `v > 0`).  Peeking at the byte after a delimiter
+// without asking whether there is one panics on a source that ends with that delimiter.
+func checkLookaround(w *World, r *Report) {
+	isData := func(t types.Type) bool {
+		switch u := t.Underlying().(type) {
+		case *types.Basic:
+			return u.Info()&types.IsString != 0
+		case *types.Slice:
+			b, ok := u.Elem().Underlying().(*types.Basic)
+			return ok && b.Kind() == types.Uint8
+		}
+		return false
+	}
+	// v ± k
+	split := func(idx ssa.Value) (base ssa.Value, k int64, ok bool) {
+		bo, isBo := idx.(*ssa.BinOp)
+		if !isBo || (bo.Op != token.ADD && bo.Op != token.SUB) {
+			return nil, 0, false
+		}
+		c, isC := intConst(bo.Y)
+		if !isC {
+			if c2, isC2 := intConst(bo.X); isC2 && bo.Op == token.ADD {
+				return bo.Y, c2, true
+			}
+			return nil, 0, false
+		}
+		if bo.Op == token.SUB {
+			c = -c
+		}
+		return bo.X, c, true
+	}
+	lenOf := func(v ssa.Value, x ssa.Value) bool {
+		c, ok := v.(*ssa.Call)
+		if !ok {
+			return false
+		}
+		b, ok := c.Call.Value.(*ssa.Builtin)
+		return ok && b.Name() == "len" && len(c.Call.Args) == 1 && sameValue(unspill(c.Call.Args[0]), unspill(x))
+	}
+	n := 0
+	for _, fn := range w.pkgFuncs() {
+		instrsOf(fn, func(in ssa.Instruction) {
+			var x, idx ssa.Value
+			switch v := in.(type) {
+			case *ssa.Index:
+				x, idx = v.X, v.Index
+			case *ssa.IndexAddr:
+				x, idx = v.X, v.Index
+			default:
+				return
+			}
+			if !isData(deref(x.Type())) {
+				return
+			}
+			base, k, ok := split(idx)
+			if !ok || k == 0 || k > 16 || k < -16 {
+				return
+			}
+			n++
+			construct := fmt.Sprintf("look-around x[v%+d] is guarded", k)
+			fl := &boolFlow{fn: fn, entry: false}
+			fl.edge = func(b *ssa.BasicBlock, i int) bool {
+				return anyEdgeFact(b, i, func(cv ssa.Value, trueIdx int) bool {
+					bo, ok := cv.(*ssa.BinOp)
+					if !ok {
+						return false
+					}
+					op, l, rgt := bo.Op, bo.X, bo.Y
+					if i != trueIdx {
+						switch op {
+						case token.LSS:
+							op = token.GEQ
+						case token.LEQ:
+							op = token.GTR
+						case token.GTR:
+							op = token.LEQ
+						case token.GEQ:
+							op = token.LSS
+						case token.EQL:
+							op = token.NEQ
+						case token.NEQ:
+							op = token.EQL
+						default:
+							return false
+						}
+					}
+					// normalise to l < r / l <= r
+					switch op {
+					case token.GTR:
+						op, l, rgt = token.LSS, rgt, l
+					case token.GEQ:
+						op, l, rgt = token.LEQ, rgt, l
+					}
+					sameBase := func(v ssa.Value) bool { return sameValue(unspill(v), unspill(base)) }
+					if k > 0 {
+						// base + k' < len(x)  |  base + k' <= len(x)-1 …
+						need := k
+						if op == token.LEQ {
+							need = k + 1 // l <= r  ==  l < r+1
+						}
+						if op != token.LSS && op != token.LEQ {
+							return false
+						}
+						// forms: (base+k') OP len ; base OP len-k' ; k' OP len-base
+						if b2, kk, ok := split(l); ok && sameBase(b2) && lenOf(rgt, x) {
+							if op == token.LSS {
+								return kk >= k
+							}
+							return kk >= need // base+kk <= len  ⇒ base+kk-1 < len
+						}
+						if sameBase(l) {
+							if rb, kk, ok := split(rgt); ok && lenOf(rb, x) && kk < 0 {
+								// base < len-kk'  (kk negative)
+								if op == token.LSS {
+									return -kk >= k
+								}
+								return -kk >= need
+							}
+						}
+						if c, isC := intConst(l); isC {
+							if rb, ok := rgt.(*ssa.BinOp); ok && rb.Op == token.SUB && lenOf(rb.X, x) && sameBase(rb.Y) {
+								// c < len - base
+								if op == token.LSS {
+									return c >= k
+								}
+								return c >= need
+							}
+						}
+						return false
+					}
+					// k < 0: base >= -k
+					kk := -k
+					switch op {
+					case token.LSS: // c < base
+						if c, isC := intConst(l); isC && sameBase(rgt) {
+							return c >= kk-1
+						}
+					case token.LEQ: // c <= base
+						if c, isC := intConst(l); isC && sameBase(rgt) {
+							return c >= kk
+						}
+					case token.NEQ:
+						if kk == 1 {
+							if c, isC := intConst(rgt); isC && c == 0 && sameBase(l) {
+								return true
+							}
+							if c, isC := intConst(l); isC && c == 0 && sameBase(rgt) {
+								return true
+							}
+						}
+					}
+					return false
+				})
+			}
+			fl.solve()
+			if fl.at(in) {
+				r.ok("R05.13", ssaName(fn), construct, w.posOf(in.Pos()), "a bound test of the same position dominates the access", true)
+			} else {
+				r.bad("R05.13", ssaName(fn), construct, w.posOf(in.Pos()), fmt.Sprintf("the byte at offset %+d from a scan position is read without a test that the position exists on every path: a source that ends right there (a lone delimiter at the end of the template) makes the index run out of range and the parse panics", k))
+			}
+		})
+	}
+	r.Counts["constant look-arounds in strings and byte slices"] = n
+}
